@@ -183,6 +183,7 @@ type SessionManager struct {
 	sessions     map[uint16]*Session
 	macToSession map[string]uint16 // MAC string -> session ID
 	nextID       uint16
+	onExpire     func(*Session) // called for every session the idle sweep removes
 	mu           sync.RWMutex
 }
 
@@ -193,6 +194,14 @@ func NewSessionManager() *SessionManager {
 		macToSession: make(map[string]uint16),
 		nextID:       1,
 	}
+}
+
+// SetOnExpire registers a callback invoked (with the manager lock held) for every session that
+// CleanupExpired removes, so that the owner can release what the session holds.
+func (m *SessionManager) SetOnExpire(fn func(*Session)) {
+	m.mu.Lock()
+	defer m.mu.Unlock()
+	m.onExpire = fn
 }
 
 // CreateSession creates a new session
@@ -291,6 +300,9 @@ func (m *SessionManager) CleanupExpired(timeout time.Duration) int {
 			delete(m.macToSession, session.ClientMAC.String())
 			delete(m.sessions, id)
 			removed++
+			if m.onExpire != nil {
+				m.onExpire(session)
+			}
 		}
 	}
 
